@@ -8,10 +8,10 @@ import traceback
 ENGINES = {
   'C10': 'timer',
   'C01': 'stack', 'C02': 'stack', 'C12': 'stack',
-  'C08': 'transport', 'C11': 'transport',
+  'C08': 'transport', 'C11': 'transport', 'C09': 'resurrect',
   'C13': 'muxwire', 'C15': 'kafkawire',
   'C14': 'thriftwire', 'C20': 'proxy',
-  'C07': 'pool', 'C18': 'varz',
+  'C07': 'pool', 'C18': 'varz', 'C19': 'zk',
 }
 
 
